@@ -144,12 +144,21 @@ func deepInner(v reflect.Value, seen map[uintptr]bool) uint64 {
 var _ = unsafe.Sizeof(0)
 
 // c09Measure decodes and re-encodes one input and returns the cost figures.
-func c09Measure(v6 bool, b []byte) c09Meas {
+func c09Measure(v6 bool, b []byte) c09Meas { return c09MeasureW(v6, b, 0) }
+
+// c09MeasureW: with window > 0 the input is handed over as the front of a backing array that many octets larger (a
+// datagram in a big read buffer, a packet inside a capture file): the cost is a function of the input's length.
+func c09MeasureW(v6 bool, b []byte, window int) c09Meas {
 	m := c09Meas{N: len(b)}
 	if v6 {
 		m.D = refv6.Depth(b)
 	}
 	in := append([]byte{}, b...)
+	if window > 0 {
+		big := make([]byte, len(b)+window)
+		copy(big, b)
+		in = big[:len(b)]
+	}
 	old := debug.SetGCPercent(-1)
 	var m0, m1 runtime.MemStats
 	runtime.ReadMemStats(&m0)
@@ -207,6 +216,7 @@ type c09Family struct {
 	Make     func(n int, variant int) []byte
 	Variants int // 0 = 6
 	MaxN     int // 0 = the whole ladder
+	Window   int // > 0: the input is the front of a backing array this much larger
 }
 
 // container options that hold options of the top-level space: code, fixed header
@@ -491,6 +501,28 @@ var c09Families = []c09Family{
 		}
 		return append([]byte{1, 1, 2, 3}, v6opt(c.Code, clip64k(body))...)
 	}},
+	{Name: "v6/window-of-large-buffer", V6: true, Variants: 8, Window: 8 << 20, Make: func(n, variant int) []byte {
+		// ordinary well-formed messages handed over as the front of an 8 MiB array (every second variant wrapped in a
+		// relay): what decoding costs depends on the length of the input, not on the capacity behind it
+		u := c09MinimalOpts[(variant*7)%len(c09MinimalOpts)]
+		b := append([]byte{1, 1, 2, 3}, rep(append(v6opt(u.code, u.payload), 0, 200, 0, 0), max(8, n-4))...)
+		if variant%2 == 1 && len(b) < 65000 {
+			b = append(append(make([]byte, 34), 0, 9, byte(len(b)>>8), byte(len(b))), b...)
+			b[0] = 12
+		}
+		return b
+	}},
+	{Name: "v4/window-of-large-buffer", V6: false, Variants: 6, Window: 8 << 20, Make: func(n, variant int) []byte {
+		p := v4Prefix()
+		for c := 1; len(p)+6 < n-1 && c < 250; c++ {
+			l := min(4+variant*40, n-1-len(p)-2, 255)
+			if l < 0 {
+				break
+			}
+			p = append(append(p, byte(c), byte(l)), make([]byte, l)...)
+		}
+		return append(p, 255)
+	}},
 	{Name: "v6/empty-items", V6: true, Make: func(n, variant int) []byte {
 		code := []uint16{15, 60, 16}[variant%3]
 		p := rep([]byte{0, 0}, n-12)
@@ -621,7 +653,7 @@ var c09scale = newChk("C09", "family-scaling",
 				break
 			}
 			b := f.Make(n, c.Variant)
-			m := c09Measure(f.V6, b)
+			m := c09MeasureW(f.V6, b, f.Window)
 			rec.Class(fmt.Sprintf("%s n=%d accepted=%v", f.Name, n, m.Accepted))
 			rec.Extra(fmt.Sprintf("cost %s/v%d n=%d", f.Name, c.Variant, n), fmt.Sprintf("A/n/(d+1)=%.1f S/n=%.1f d=%d accepted=%v", float64(m.A)/float64(m.N)/float64(m.D+1), float64(m.S)/float64(m.N), m.D, m.Accepted))
 			if os.Getenv("VERIF_C09_CALIBRATE") != "" {
